@@ -21,6 +21,7 @@ import (
 	"log/slog"
 	"net/netip"
 	"os"
+	"slices"
 	"sort"
 	"strings"
 	"testing/synctest"
@@ -134,6 +135,7 @@ type nodeSpec struct {
 	relay      bool
 	relays     []string
 	extra      map[string]any // deep-merged over the base config
+	altUDP     []netip.AddrPort // further underlay addresses that reach this node
 }
 
 type simNode struct {
@@ -322,7 +324,13 @@ func (w *simWorld) newSimNode(idx int, spec *nodeSpec) (*simNode, error) {
 	return n, nil
 }
 
-func (n *simNode) localAddrs() []netip.Addr { return []netip.Addr{n.conn.addr.Addr()} }
+func (n *simNode) localAddrs() []netip.Addr {
+	o := []netip.Addr{n.conn.addr.Addr()}
+	for _, a := range n.spec.altUDP {
+		o = append(o, a.Addr())
+	}
+	return o
+}
 
 func (n *simNode) vpnAddr() netip.Addr { return n.spec.nets[0].Addr() }
 
@@ -523,6 +531,12 @@ func (w *simWorld) after(d time.Duration, name string, run func()) { w.at(w.now+
 func (w *simWorld) nodeByUDP(a netip.AddrPort) *simNode {
 	for _, n := range w.nodes {
 		if n.alive && n.conn.addr == a {
+			return n
+		}
+	}
+	for _, n := range w.nodes {
+		// additional underlay addresses of a multi-homed node (it answers from its primary one)
+		if n.alive && slices.Contains(n.spec.altUDP, a) {
 			return n
 		}
 	}
